@@ -139,11 +139,15 @@ func StepWorkflowPaths(wf *workflow.Workflow) map[string]string {
 		if ok1 {
 			kind, ok1 := stepDataMap["kind"]
 			if ok1 {
-				kindString := kind.(string)
-				if kindString == "foreach" {
+				// Steps with a malformed kind or workflow field are skipped here;
+				// they are rejected with a proper error when the workflow is prepared.
+				kindString, isString := kind.(string)
+				if isString && kindString == "foreach" {
 					subworkflowPath := stepDataMap["workflow"]
-					subworkflowPathString := subworkflowPath.(string)
-					stepFilePaths[subworkflowPathString] = subworkflowPathString
+					subworkflowPathString, isString := subworkflowPath.(string)
+					if isString {
+						stepFilePaths[subworkflowPathString] = subworkflowPathString
+					}
 				}
 			}
 		}
